@@ -1,5 +1,6 @@
 import GbVerif.Proofs.CoreStep
 import GbVerif.Proofs.CoreFrame
+import GbVerif.Proofs.SysFrame
 import GbVerif.Props.C06
 /-!
 C09 — CPU and device time stay in lock step and the frame loop makes progress.
@@ -12,7 +13,7 @@ CPU: instructions, +5 per dispatch, +1 per suspended step) are ghost counters up
 step, interpreter as the block engine).
 -/
 namespace GbVerif.C09
-open GbVerif.Core GbVerif.CoreProofs GbVerif.LcdSpec
+open GbVerif.Core GbVerif.CoreProofs GbVerif.LcdSpec GbVerif.SysProofs
 
 /-- clocks delivered + 4 × (machine cycles charged but not yet delivered: the five cycles of a dispatch that ended the step)
 = 4 × machine cycles charged -/
@@ -204,6 +205,70 @@ theorem run_frame_terminates_blocks (dev : Dev) (tr : Nat → State) (run : Fram
     ∃ n, 0 < n ∧ frames (tr n) ≠ frames (tr 0) ∧ (tr (n - 1)).delivered < (tr 0).delivered + 70224 := by
   obtain ⟨n, h0, h1, _, h3⟩ := run_frame_terminates_partial (updateBlock dev) tr run (fun c c' h => updateBlock_progress h) frames t0 hlcd
   exact ⟨n, h0, h1, h3⟩
+
+/-! ### the whole machine: `Sys.dev` = OAM DMA + timer + LCD + joypad as `MemoryAreas::run_clock_cycles` composes them
+
+`SysInv c` says: the LCD sits where the schedule of C14 puts it after `c.delivered` clocks and has counted
+`c.delivered / 70224` completed frames.  It holds for a freshly created machine and is preserved by every step, whatever
+the program does (all 90 instruction forms, every register write, OAM DMA, dispatch, HALT/STOP), instruction-stepped or
+block-stepped: the assumption of `run_frame_terminates_partial` is a theorem for the real device function. -/
+
+/-- one step keeps the LCD in lock step with the delivered clocks -/
+theorem sys_inv_update (c c' : State) (h : update Sys.dev c = .ok c') (hi : SysInv c) : SysInv c' := update_inv h hi
+theorem sys_inv_updateBlock (c c' : State) (h : updateBlock Sys.dev c = .ok c') (hi : SysInv c) : SysInv c' := updateBlock_inv h hi
+
+/-- … hence every run of any length, from a freshly created machine -/
+theorem sys_inv_reachable (kind : Cart.Kind) (romBanks ramBytes : Nat) (rom : Nat → Nat) (regs : Interp.Regs) (n : Nat) (c' : State)
+    (h : iter (update Sys.dev) n { regs := regs, bus := Bus.create kind romBanks ramBytes rom } = .ok c') : SysInv c' := by
+  have key : ∀ n c c', SysInv c → iter (update Sys.dev) n c = .ok c' → SysInv c' := by
+    intro n
+    induction n with
+    | zero => intro c c' hi h; injection h with h; subst h; exact hi
+    | succ n ih =>
+      intro c c' hi h
+      rw [iter] at h
+      obtain ⟨c1, h1, h⟩ := bind_ok_elim h
+      exact ih _ _ (update_inv h1 hi) h
+  exact key n _ _ (sysInv_create kind romBanks ramBytes rom regs) h
+
+/-- what the invariant says about the registers a program can read: LY and the STAT mode are those of the closed-form
+schedule at the delivered clock total, the frame counter is the number of whole frame periods (C14 ∘ C09) -/
+theorem sys_lcd_observables (c : State) (hi : SysInv c) :
+    c.bus.io.video.line = lyAt c.delivered ∧ (Sys.modeOfNat c.bus.io.video.mode).toNat = modeAt c.delivered ∧
+    Sys.frames c = c.delivered / 70224 := by
+  obtain ⟨_, h2, h3⟩ := hi
+  have hl : (GbVerif.LcdProofs.pos (Sys.lcdOf c.bus.io.video)).line = (sched c.delivered).line := by rw [h2]
+  have hm : (GbVerif.LcdProofs.pos (Sys.lcdOf c.bus.io.video)).mode = (sched c.delivered).mode := by rw [h2]
+  rw [GbVerif.LcdProofs.sched_line] at hl
+  rw [GbVerif.LcdProofs.sched_mode] at hm
+  exact ⟨hl, hm, h3⟩
+
+/-- **run_frame_terminates** for the modelled machine, no assumption left: from any state satisfying the machine
+invariant (in particular any state reachable from power-on), `Core::run_frame` — which steps until
+`get_frames_completed` changes — returns; every earlier poll still shows the old count; the last step before the
+change started less than one frame period after the call.  Instruction stepping. -/
+theorem run_frame_terminates (tr : Nat → State) (run : FrameRun (update Sys.dev) tr) (h0 : SysInv (tr 0)) :
+    ∃ n, 0 < n ∧ Sys.frames (tr n) ≠ Sys.frames (tr 0) ∧ (∀ j, j < n → Sys.frames (tr j) = Sys.frames (tr 0)) ∧
+      (tr (n - 1)).delivered < (tr 0).delivered + 70224 := by
+  have hall : ∀ i, SysInv (tr i) := by
+    intro i
+    induction i with
+    | zero => exact h0
+    | succ i ih => exact update_inv (run.steps i) ih
+  exact run_frame_terminates_partial (update Sys.dev) tr run (fun c c' h => update_progress h) Sys.frames 0
+    (fun i => by rw [Nat.zero_add]; exact (hall i).2.2)
+
+/-- … and block stepping (`jit` feature), with no bound on the block length -/
+theorem run_frame_terminates_blockstep (tr : Nat → State) (run : FrameRun (updateBlock Sys.dev) tr) (h0 : SysInv (tr 0)) :
+    ∃ n, 0 < n ∧ Sys.frames (tr n) ≠ Sys.frames (tr 0) ∧ (∀ j, j < n → Sys.frames (tr j) = Sys.frames (tr 0)) ∧
+      (tr (n - 1)).delivered < (tr 0).delivered + 70224 := by
+  have hall : ∀ i, SysInv (tr i) := by
+    intro i
+    induction i with
+    | zero => exact h0
+    | succ i ih => exact updateBlock_inv (run.steps i) ih
+  exact run_frame_terminates_partial (updateBlock Sys.dev) tr run (fun c c' h => updateBlock_progress h) Sys.frames 0
+    (fun i => by rw [Nat.zero_add]; exact (hall i).2.2)
 
 /-! ### concrete runs (the hypotheses are satisfiable; the counters move as stated) -/
 
